@@ -32,7 +32,7 @@ MONITORS = ["group", "group_raises", "count_steps", "count_mines", "count_holds_
 REQUIRED = ["overlapping_holds", "interrupted_head", "orphan_tail", "unclosed_head", "same_beat_mixed_types",
             "corpus_chart", "interrupted_head_while_younger_open", "type_subset", "stream_given_as_notedata",
             "full_row_with_minimum_equal_to_columns", "consecutive_notes_less_than_a_tick_apart",
-            "some_hold_open_for_more_than_256_notes", "include_note_types_given_as_a_plain_set", "notedata_input_in_compact_layout", "stream_of_more_than_16384_notes"]
+            "some_hold_open_for_more_than_256_notes", "include_note_types_given_as_a_plain_set", "notedata_input_in_compact_layout", "stream_of_more_than_16384_notes", "hold_open_for_more_than_65536_notes"]
 
 GRID_KINDS = "01234M"  # index 0..4 used: 0 empty, 1 tap, 2 hold head, 3 tail, 4 -> mine
 GRID_MAP = ["0", "1", "2", "3", "M"]
@@ -102,6 +102,8 @@ def cases(ctx):
     if ctx.shard == 0:
         # a stream of more than 16384 notes whose two-note beats sit on and around index 16384 (and 32768 in the thorough tier)
         yield {"kind": "big", "n": 16384 * (1 if quick else 2) + 40}
+        # one hold held open through more than 65536 (131072 in the thorough tier) notes, heads joined to tails
+        yield {"kind": "bighold", "n": 65536 * (1 if quick else 2) + 40}
     n = ctx.split(800 if quick else 16 * 30000)
     for i in range(n):
         types = rng.choice(["1234M", "1234M", "234", "1234AFKLM", "12344M3", "23"])
@@ -176,9 +178,49 @@ def check_big(ctx, case):
                got=C.count_jumps(iter(real)), want=R.count_steps(model, minimum=2))
 
 
+def check_bighold(ctx, case):
+    """A hold in column 0 from beat 0, case["n"] taps/mines in columns 1-2 on consecutive ticks (a two-note row every
+    1000th), then the hold's tail: grouped with heads joined to tails, hold and step counts."""
+    from simfile.notes import count as C
+    from simfile.notes.group import SameBeatNotes, group_notes
+
+    n = case["n"]
+    notes = [[0, 48, 0, "2", None]]
+    for r in range(1, n + 1):
+        notes.append([r, 48, 1, "1" if r % 5 else "M", None])
+        if r % 1000 == 0:
+            notes.append([r, 48, 2, "1", None])
+    notes.append([n + 1, 48, 0, "3", None])
+    ctx.begin(case, nontrivial=True, sample={"kind": "bighold", "n_notes": len(notes)})
+    ctx.feat("hold_open_for_more_than_65536_notes")
+    model, real = to_model(notes), to_real(notes)
+    for sb, mode in ((R.SEPARATE, SameBeatNotes.KEEP_SEPARATE), (R.ALL, SameBeatNotes.JOIN_ALL)):
+        ctx.mon("group")
+        want = R.group(model, frozenset(G.NOTE_CHARS), sb, True, R.RAISE, R.RAISE)
+        try:
+            got = [[real_item(x) for x in g] for g in group_notes(iter(real), same_beat_notes=mode, join_heads_to_tails=True)]
+        except Exception as e:
+            ctx.violation(f"group:big-hold:sb{sb}:raised", {"exception": f"{type(e).__name__}: {e}"[:200], "n_notes": len(notes)})
+            continue
+        if got != want:
+            i = next((i for i, (a, b) in enumerate(zip(got, want)) if a != b), min(len(got), len(want)))
+            ctx.violation(f"group:big-hold:sb{sb}", {"index": i, "got": repr(got[i:i + 2]), "want": repr(want[i:i + 2]), "n_got": len(got), "n_want": len(want)})
+    for name, fn, head in (("count_holds", C.count_holds, "2"),):
+        ctx.mon("count_holds_rolls")
+        try:
+            got = fn(iter(real))
+        except Exception as e:
+            got = f"raised {type(e).__name__}: {e}"[:200]
+        ctx.expect(got == R.count_heads(model, head), f"{name}:big-hold", got=got, want=R.count_heads(model, head))
+    ctx.mon("count_steps")
+    ctx.expect(C.count_steps(iter(real)) == R.count_steps(model), "count_steps:big-hold", got=C.count_steps(iter(real)), want=R.count_steps(model))
+
+
 def check(ctx, case):
     if case["kind"] == "big":
         return check_big(ctx, case)
+    if case["kind"] == "bighold":
+        return check_bighold(ctx, case)
     if case["kind"] == "grid":
         ctx.begin(case, nontrivial=False)
         ctx.evaluations -= 1
